@@ -104,6 +104,11 @@ def expand(history, maxnest, depth, cfgdepth, case):
     return out
 
 
+def sweep_case(h, case):
+    msgs, dg, nt, n = check(h, configs(False, some=True), case)
+    return {"viol": msgs, "obs": dg, "nt": dg if nt else None, "n": n, "cls": msgs[0].split(":")[0] if msgs else None}
+
+
 def run(ctx):
     quick = ctx.tier == "quick"
     maxnest, depth, cfgdepth = (3, 5, 3) if quick else (4, 9, 4)
@@ -113,6 +118,10 @@ def run(ctx):
                          "triggers": TRIGGERS, "strip_patterns": STRIPS, "command_case": case}
     ctx.bfs(functools.partial(expand, maxnest=maxnest, depth=depth, cfgdepth=cfgdepth, case=case),
             (statespace.model_key([]), None), depth, space="bfs")
+    others = [c for c in ("lower", "upper", "mixed") if c != case]
+    hs = modsearch.all_histories(2, functools.partial(enabled, maxnest=maxnest))
+    for oc in others:
+        ctx.sweep(functools.partial(sweep_case, case=oc), hs, space=f"histories <=2 in {oc} case, four configurations")
     ctx.assumptions += ["only signature/arity/kind messages are judged here (doc text is C01's, classes C09's)"]
     return RULE
 
